@@ -47,7 +47,7 @@ def observe(c, decls, with_values, nvals, features=(), per=40, tag=""):
             if not ok:
                 failed.append((src, g, diags)); continue
             p = rsprog.run_prog(exe)
-            os.unlink(exe)
+            vlib.discard(exe)
             if p.returncode != 0:
                 raise vlib.ToolError("derive program %s crashed: %s" % (src, p.stderr[-1500:]))
             f.write(json.dumps({"ev": "Decls", "decls": g}) + "\n")
